@@ -136,7 +136,7 @@ def generate(contract):
         for name, (parent, fields) in excs.items():
             g[name] = ExcClass(name, fields)
         g.update(S.globals)
-        it = Interp(ctx, g, module=fn.module, loops=contract.loops, exc_parents=exc_parents, fnname=fn.ref, module_names=modnames)
+        it = Interp(ctx, g, module=fn.module, loops=contract.loops, exc_parents=exc_parents, fnname=fn.ref, module_names=modnames, exact=getattr(contract, 'exact', False))
         ctx.interp = it
         try:
             v = it.call_function(fn.node, S.args, S.kwargs)
